@@ -200,6 +200,7 @@ void conn_run(const Plan *p, const CredSet *cs, HonestOut *out,
 		memcpy(out->recs[d], pp->recs, sizeof(RecInfo) * (size_t)out->nrecs[d]);
 		out->sent_len[d] = pp->sent_len;
 	}
+	if (g_leak_mode) { leak_deep_collect(p); leak_scan_now(0); }
 	ep_free(cl);
 	ep_free(sv);
 	arena_end();
